@@ -68,7 +68,18 @@ impl FixtureDatabase {
                         return true;
                     }
                 }
+                Stmt::AsyncFor(for_stmt) => {
+                    if self.contains_yield(&for_stmt.body) || self.contains_yield(&for_stmt.orelse)
+                    {
+                        return true;
+                    }
+                }
                 Stmt::With(with_stmt) => {
+                    if self.contains_yield(&with_stmt.body) {
+                        return true;
+                    }
+                }
+                Stmt::AsyncWith(with_stmt) => {
                     if self.contains_yield(&with_stmt.body) {
                         return true;
                     }
@@ -79,6 +90,12 @@ impl FixtureDatabase {
                         || self.contains_yield(&try_stmt.finalbody)
                     {
                         return true;
+                    }
+                    for handler in &try_stmt.handlers {
+                        let rustpython_parser::ast::ExceptHandler::ExceptHandler(h) = handler;
+                        if self.contains_yield(&h.body) {
+                            return true;
+                        }
                     }
                 }
                 _ => {}
